@@ -42,9 +42,17 @@ def replay_wire(ob, model):
     fmt = ob.meta.get('fmt')
     name = ob.name
     try:
+        if '/roundtrip[' in name:
+            return replay_roundtrip(name.split('/roundtrip[')[1].split(']')[0], model, E, D)
         if '/encoder.' in name:
             return replay_encoder(fmt, model, E)
-        return replay_decoder(fmt, ob.meta.get('variant', ''), model, D)
+        rp = replay_decoder(fmt, ob.meta.get('variant', ''), model, D)
+        if '/no-exception' in name and isinstance(rp, dict) and not rp.get('confirmed'):
+            # the obligation says: this front end does not raise on this input
+            out_ = (rp.get('observed') or {}).get('outcome') or []
+            if out_ and out_[0] == 'raise':
+                rp = dict(rp, confirmed=True, expected='no exception (the line is decoded, or ignored)')
+        return rp
     except Exception as e:  # noqa
         import traceback
         return {'confirmed': None, 'note': 'replay harness error: ' + traceback.format_exc()[-400:]}
@@ -154,3 +162,47 @@ def replay_decoder(fmt, variant, m, D):
         bad = not (len(calls) == 1 and list(calls[0]) == exp)
     return {'confirmed': bad, 'inputs': inp, 'observed': observed, 'expected': None if exp is None else exp[:4] + [exp[4].hex(), exp[5]],
             'how': f'NMEA2000Decoder.decode_* ({fmt}) on the working tree with _decode stubbed to record its arguments'}
+
+
+
+def replay_roundtrip(fmt, m, E, D):
+    """The real encoder of a format, then the real decoder of the same format, with _encode / _decode stubbed to hand over /
+    record the frame: header and data must come back.  Tried for the counterexample's header and for a boundary grid."""
+    from nmea2000.message import NMEA2000Message
+    en, dn = {'ebyte': ('encode_ebyte', 'decode_tcp'), 'usb': ('encode_usb', 'decode_usb'), 'yd': ('encode_yacht_devices', 'decode_yacht_devices_string'),
+              'actisense': ('encode_actisense', 'decode_actisense_string')}[fmt]
+    grid = [(int(m.get('msg.PGN', 59904)), int(m.get('msg.source', 1)), int(m.get('msg.destination', 255)), int(m.get('msg.priority', 3)))]
+    grid += [(p, s_, d, pr) for p in (59904, 127250, 126720, 0x1EF00) for s_ in (0, 1, 35, 255) for d in (0, 5, 15, 16, 255) for pr in (0, 3, 7)]
+    for (pgn, src, dst, prio) in grid:
+        pdu1 = ((pgn >> 8) & 0xFF) < 240
+        if not pdu1:
+            dst = 255
+        else:
+            pgn &= 0x3FF00
+        for n in (8, 3, 1):
+            data = bytes((17 * i + 3) & 0xFF for i in range(n))
+            msg = NMEA2000Message(PGN=pgn, id='x', source=src, destination=dst, priority=prio)
+            enc = E.NMEA2000Encoder()
+            enc._encode = lambda mm, data=data: [data]
+            enc._call_encode_function = lambda mm, data=data: data[::-1]
+            dec = D.NMEA2000Decoder()
+            calls = []
+            dec._decode = lambda pgn_, prio_, src_, dst_, ts, can, raw, comb=False: calls.append((pgn_, prio_, src_, dst_, bytes(can)))
+            try:
+                pk = getattr(enc, en)(msg)
+                pk = pk if isinstance(pk, list) else [pk]
+                for q in pk:
+                    arg = q
+                    if fmt == 'yd':
+                        arg = '00:00:00.000 R ' + bytes(q).decode().strip()
+                    elif fmt == 'actisense':
+                        arg = 'A000000.000 ' + q.strip()
+                    getattr(dec, dn)(arg)
+            except Exception as e:  # noqa
+                return {'confirmed': True, 'inputs': {'format': fmt, 'pgn': pgn, 'source': src, 'destination': dst, 'priority': prio, 'data': data.hex()},
+                        'observed': f'{type(e).__name__}: {e}', 'how': f'{en} then {dn} on the working tree'}
+            want = (pgn, prio, src, dst, data[::-1] if fmt != 'actisense' else data[::-1])
+            if len(calls) != 1 or calls[0][:4] != want[:4]:
+                return {'confirmed': True, 'inputs': {'format': fmt, 'pgn': pgn, 'source': src, 'destination': dst, 'priority': prio, 'data': data.hex(), 'packets': [bytes(q).hex() if isinstance(q, (bytes, bytearray)) else q for q in pk]},
+                        'observed': [list(c[:4]) for c in calls], 'expected': list(want[:4]), 'how': f'{en} then {dn} on the working tree (frame handed over by stubs of _encode / _decode)'}
+    return {'confirmed': False, 'inputs': {k: v for k, v in m.items() if k.startswith('msg.')}}
